@@ -158,7 +158,7 @@ class Ctx:
             except subprocess.TimeoutExpired as e:
                 return False, f"lake build timed out after {timeout}s: {e}"
 
-    def prove(self, module_files, exes=(), extra_modules=()):
+    def prove(self, module_files, exes=(), extra_modules=(), name_filter=None):
         """
         Build the property modules (kernel-checks every theorem in them), the driver executables, then audit:
         forbidden tokens in all project sources, `#print axioms` on every theorem of the property files.
@@ -173,7 +173,8 @@ class Ctx:
             code = strip_lean_comments(src)
             ns = re.findall(r"^namespace\s+(\S+)", code, re.M)
             prefix = (ns[0] + ".") if ns else ""
-            names += [prefix + n for n in re.findall(r"^\s*theorem\s+([^\s:({\[]+)", code, re.M)]
+            names += [prefix + n for n in re.findall(r"^\s*theorem\s+([^\s:({\[]+)", code, re.M)
+                      if name_filter is None or name_filter(n)]
         self.obligations = names
         if not ok:
             errs = re.findall(r"^error: .*|^.*: error.*$", log, re.M)
